@@ -127,6 +127,9 @@ func mkTx(seed uint32, outputs int) *wire.MsgTx {
 
 type Step struct {
 	K       string `json:"k"` // send | wait | request_block
+	// send: do not write this message on its own but together with the next one (one write on the
+	// connection: what a peer's coalesced TCP segments look like to a reader that reads ahead)
+	Join bool `json:"join,omitempty"`
 	Cmd     string `json:"cmd,omitempty"`
 	Ext     bool   `json:"ext,omitempty"`
 	Count   int    `json:"count,omitempty"`
@@ -397,6 +400,11 @@ func (s *session) bytesFor(st Step, id int) ([]byte, string) {
 		case "random":
 			hs = append(hs, &wire.BlockHeader{Version: 1, PrevBlock: *fixture[5].BlockHash(), Timestamp: 1600000000, Bits: 0x1d00ffff, Nonce: uint32(id)})
 		case "empty":
+		case "aftergenesis": // a block-1 header: what a peer sharing none of our locator hashes sends
+			if g, err := s.repo.Header(coqfmt.QuietContext(), 0); err == nil {
+				hs = append(hs, &wire.BlockHeader{Version: 1, PrevBlock: *g.BlockHash(), Timestamp: g.Timestamp + 600, Bits: 0x1d00ffff, Nonce: uint32(id)})
+			}
+			allOK = false
 		case "known": // a header the repository already holds (shared by every fork: proves nothing)
 			// (the genesis header: offered again in tracking mode it is refused - its parent is
 			// looked up before the duplicate check - so it is not an "accepted" header either)
@@ -481,6 +489,7 @@ func runSession(c *Case) {
 	s := newSession(c)
 	var acts []string
 	ok := true
+	var pending []byte // messages held back to be written together with the next one
 	for i, st := range c.Ops {
 		switch st.K {
 		case "send":
@@ -534,8 +543,12 @@ func runSession(c *Case) {
 			case st.Cmd == "headers" && st.Variant == "bsv" && s.sentVersion && s.sentVerack:
 				atomic.StoreInt32(&s.proved, 1)
 			}
-			if !s.write(b) {
-				ok = false
+			pending = append(pending, b...)
+			if !(st.Join && (i+1 == len(c.Ops) || c.Ops[i+1].K == "send")) {
+				if !s.write(pending) {
+					ok = false
+				}
+				pending = nil
 			}
 			acts = append(acts, "ARecv ("+term+")")
 		case "settle": // give the handshake thread time to take the message off its channel
@@ -559,7 +572,7 @@ func runSession(c *Case) {
 	p := make([]byte, 8)
 	binary.LittleEndian.PutUint64(p, nonce)
 	pong := false
-	if s.write(frame("ping", p)) {
+	if s.write(append(pending, frame("ping", p)...)) {
 		deadline := time.Now().Add(1500 * time.Millisecond)
 		for time.Now().Before(deadline) {
 			s.mu.Lock()
@@ -943,12 +956,19 @@ func genSession(r *coqfmt.Rand, id int, profile string) Case {
 	}
 	noise(r.Intn(3))
 	// verification reply
-	reply := []string{"bsv", "bsv", "bsv", "bch", "random", "empty", "known"}[r.Intn(7)]
+	reply := []string{"bsv", "bsv", "bsv", "bch", "random", "empty", "known", "aftergenesis"}[r.Intn(8)]
 	if profile == "C14" {
 		reply = "bsv"
 		c.VerifyOnly = false
 	}
+	if profile == "C03" { // the peer clause of C03: every kind of reply, equally often
+		reply = []string{"bsv", "bch", "random", "empty", "known", "aftergenesis"}[r.Intn(6)]
+	}
 	c.Ops = append(c.Ops, Step{K: "send", Cmd: "headers", Variant: reply, Count: 1 + r.Intn(3)})
+	if profile == "C03" && reply != "bsv" && r.Chance(2, 3) {
+		// a second reply, this time with the BSV split header: the first one has decided
+		c.Ops = append(c.Ops, Step{K: "send", Cmd: "headers", Variant: "bsv", Count: 1})
+	}
 	if reply == "bsv" && !c.VerifyOnly {
 		wait("sendheaders")
 		// conformant traffic while ready
@@ -1010,6 +1030,7 @@ func genSession(r *coqfmt.Rand, id int, profile string) Case {
 			if st.Cmd == "tx" && st.Size > 200000 {
 				st.Size = 200000
 			}
+			st.Join = r.Chance(1, 3)
 			c.Ops = append(c.Ops, st)
 		}
 		if profile == "C14" && r.Chance(1, 6) { // more repeated handshake messages than the handshake channel holds (D16)
